@@ -49,6 +49,18 @@ func TestDrive(t *testing.T) {
 	defer e.Close()
 	r := NewRand(seed)
 	stateful := driver == "hist"
+	idtT = t
+	// stateless executor; "expiry" and "assertion" ops need the test handle (each op runs in its own synctest bubble)
+	pureExec := safely(func(op string) string {
+		f := strings.Split(op, "\t")
+		switch f[0] {
+		case "expiry":
+			return execExpiry(t, f)
+		case "assertion":
+			return execAssertion(t, f)
+		}
+		return execPure(f)
+	})
 
 	if rp := os.Getenv("FZ_REPLAY"); rp != "" {
 		// replay mode: execute the op lines of an existing file instead of generating
@@ -58,7 +70,7 @@ func TestDrive(t *testing.T) {
 		}
 		lines := strings.Split(strings.TrimRight(string(data), "\n"), "\n")
 		if !stateful {
-			e.Exec = safely(func(op string) string { return execPure(strings.Split(op, "\t")) })
+			e.Exec = pureExec
 			for _, line := range lines {
 				e.Do(line)
 			}
@@ -115,6 +127,15 @@ func TestDrive(t *testing.T) {
 	case "clientauth":
 		e.Exec = safely(func(op string) string { return execPure(strings.Split(op, "\t")) })
 		ClientAuthCases(e, r, tier)
+	case "expiry":
+		e.Exec = pureExec
+		ExpiryCases(e, r, tier)
+	case "assertion":
+		e.Exec = pureExec
+		AssertionCases(e, r, tier)
+	case "idtoken":
+		e.Exec = pureExec
+		IDTokenCases(e, r, tier)
 	case "hist":
 		nh := envInt("FZ_HISTORIES", 40)
 		if tier == "thorough" {
@@ -150,6 +171,8 @@ func execPure(f []string) string {
 		return execRender(f)
 	case "clientauth":
 		return execClientAuth(f)
+	case "idtoken":
+		return execIDToken(f)
 	}
 	return "bad-op"
 }
